@@ -1,6 +1,6 @@
 SPECIFICATION Spec
-CONSTANTS TypeSet = {"pml", "periodic", "pec", "pmc", "bloch", "other"}  BaseSet = {"pml", "bloch", "other"}  OvSet = {"none", "pml", "periodic", "pec", "pmc", "bloch"}
-          MaxTh = 2  ThickMode = "few"  Scope = "all"  NX = 5  NY = 6  NZ = 7  Variant = "code"
+CONSTANTS TypeSet = {"pml", "periodic"}  BaseSet = {"pml"}  OvSet = {"none"}
+          MaxTh = 3  ThickMode = "all"  Scope = "all"  NX = 7  NY = 8  NZ = 9  Variant = "code"
 INVARIANT TypeOK
 INVARIANT ErrorIffUnknown
 INVARIANT TablesPerFace
